@@ -43,8 +43,15 @@ def startsWith : Bytes → Bytes → Bool
   | [], _ :: _ => false
   | x :: xs, p :: ps => x == p && startsWith xs ps
 
-/-- decimal rendering -/
-def natToDec (n : Nat) : Bytes := (toString n).toList.map (fun c => c.toNat.toUInt8)
+/-- decimal digits of `n`, most significant first, prepended to `acc` (`fuel` ≥ number of digits) -/
+def decDigits : Nat → Nat → Bytes → Bytes
+  | 0, _, acc => acc
+  | fuel + 1, n, acc =>
+    if n < 10 then (48 + n).toUInt8 :: acc
+    else decDigits fuel (n / 10) ((48 + n % 10).toUInt8 :: acc)
+
+/-- decimal rendering (`b"%d" % n`, `str(n)`) -/
+def natToDec (n : Nat) : Bytes := decDigits (n + 1) n []
 
 /-- decimal parse of a digit string -/
 def decToNat (b : Bytes) : Nat := b.foldl (fun a c => a * 10 + (c.toNat - 48)) 0
